@@ -58,15 +58,23 @@ N_SHORT = 8
 
 
 class Recorder:
-    def __init__(self, late: bool, conn_box: dict) -> None:
+    """late: the application starts reading only when the harness opens the gate.
+    respond_first: the application starts its response (head + first half of the body)
+    before it reads the request body - a streaming/echo style application."""
+
+    def __init__(self, late: bool, conn_box: dict, respond_first: bool = False) -> None:
         self.instances: List[dict] = []
         self.late = late
+        self.respond_first = respond_first
         self.conn_box = conn_box
         self.gate = None
 
     async def __call__(self, scope, receive, send, sync_spawn=None, call_soon=None):
         inst = {"scope": scope, "msgs": [], "done": False}
         self.instances.append(inst)
+        if self.respond_first:
+            await send({"type": "http.response.start", "status": 200, "headers": [(b"content-length", b"2")]})
+            await send({"type": "http.response.body", "body": b"o", "more_body": True})
         if self.late and self.gate is not None:
             await self.gate.wait()
         while True:
@@ -74,8 +82,11 @@ class Recorder:
             inst["msgs"].append(m)
             if m["type"] != "http.request" or not m.get("more_body"):
                 break
-        await send({"type": "http.response.start", "status": 200, "headers": [(b"content-length", b"2")]})
-        await send({"type": "http.response.body", "body": b"ok", "more_body": False})
+        if self.respond_first:
+            await send({"type": "http.response.body", "body": b"k", "more_body": False})
+        else:
+            await send({"type": "http.response.start", "status": 200, "headers": [(b"content-length", b"2")]})
+            await send({"type": "http.response.body", "body": b"ok", "more_body": False})
         inst["done"] = True
 
 
@@ -106,11 +117,11 @@ def check_instance(inst: dict, t: dict, http_version: str, scheme: str, want_hea
     return ""
 
 
-def _h1_session(ti: int, cuts: List[int], late: bool, raw_headers: bool = False):
+def _h1_session(ti: int, cuts: List[int], late: bool, raw_headers: bool = False, respond_first: bool = False):
     t = TEMPLATES[ti]
     data = h1_request(t["method"], t["target"], t["headers"], t["body"], t["framing"], t["version"])
     box: dict = {}
-    app = Recorder(late, box)
+    app = Recorder(late, box, respond_first)
     conn = Conn(app, make_config(h11_pass_raw_headers=raw_headers), client=("192.0.2.9", 4444), server=("198.51.100.1", 8080))
     app.gate = conn.ctx.event_class()
     pos = 0
@@ -168,7 +179,7 @@ STRIDE = 3 if QUICK else 1  # quick: every 3rd split offset (phase varies with t
     witnesses=[{"ti": 1, "s": 6, "late": False, "rawh": False}, {"ti": 3, "s": 20, "late": True, "rawh": False}, {"ti": 1, "s": 30, "late": False, "rawh": True}],
     budget={"quick": 100, "thorough": 300},
     per_path=120,
-    bounds="8 HTTP/1.x request templates (6 methods, query/escapes/invalid escape, repeated+mixed-case+empty headers, HTTP/1.0 and 1.1, no body / content-length / chunked) x every two-way split point of the request bytes (quick: every 3rd offset) x application reading promptly or late, raw-header mode on/off",
+    bounds="8 HTTP/1.x request templates (6 methods, query/escapes/invalid escape, repeated+mixed-case+empty headers, HTTP/1.0 and 1.1, no body / content-length / chunked) x every two-way split point of the request bytes (quick: every 3rd offset) x application style {reads promptly, reads late, starts its response before reading the body}, raw-header mode on/off",
     encodes=["hypercorn/protocol/h11.py::H11Protocol._handle_events", "hypercorn/protocol/h11.py::H11Protocol._create_stream", "hypercorn/protocol/http_stream.py::HTTPStream.handle",
              "hypercorn/protocol/http_stream.py::HTTPStream.app_send", "hypercorn/protocol/__init__.py::ProtocolWrapper.handle", "hypercorn/asyncio/task_group.py::_handle"],
     stubs=["tier B: worker runtime (reader loop, event, bounded queue, task group) = deterministic FIFO scheduler; transport = in-memory recorder", "client-side h11 parses the server's bytes"],
@@ -185,11 +196,13 @@ def h1_request_fidelity(ti: int, s: int, late: bool, rawh: bool) -> bool:
         return done(True, skipped="split beyond the request")
     late = True if late else False
     rawh = True if rawh else False
-    if rawh and late:
-        return done(True, skipped="raw-header mode is only combined with the prompt application")
-    t, data, app, conn = _h1_session(ti, [s], late, rawh)
+    # (rawh and late) selects the third application style instead: respond first, then read
+    respond_first = rawh and late
+    if respond_first:
+        rawh, late = False, False
+    t, data, app, conn = _h1_session(ti, [s], late, rawh, respond_first)
     why = _verify_h1(t, data, app, conn, rawh)
-    return done(why == "", ti=ti, s=s, late=late, rawh=rawh, why=why)
+    return done(why == "", ti=ti, s=s, late=late, rawh=rawh, respond_first=respond_first, why=why)
 
 
 @harness(
@@ -221,9 +234,10 @@ def h1_long_request_fidelity(ti: int, c0: int, c1: int, c2: int, late: bool) -> 
     head = data.find(b"\r\n\r\n") + 4
     positions = [head // 2, head - 1, head, head + 1, head + (len(data) - head) // 3, min(len(data), head + 65536), len(data) - 1, len(data)]
     cuts = [positions[conc(c, 0, 7)] for c in (c0, c1, c2)]
-    t, data, app, conn = _h1_session(ti, cuts, late)
+    respond_first = late and (c0 % 2 == 1)  # half of the "late" runs use the respond-first application instead
+    t, data, app, conn = _h1_session(ti, cuts, late and not respond_first, False, respond_first)
     why = _verify_h1(t, data, app, conn)
-    return done(why == "", ti=ti, cuts=sorted(set(cuts)), late=late, why=why)
+    return done(why == "", ti=ti, cuts=sorted(set(cuts)), late=late, respond_first=respond_first, why=why)
 
 
 # ------------------------------------------------------------------ HTTP/2
@@ -303,14 +317,15 @@ def h2_request_fidelity(ti: int, s: int, late: bool, alpn: bool) -> bool:
             s = len(data) - 7  # one cut deep inside the body of long requests
         else:
             return done(True, skipped="split beyond the request")
-    app = Recorder(late, {})
+    respond_first = late and alpn  # third application style, on the ALPN route
+    app = Recorder(late and not respond_first, {}, respond_first)
     conn = Conn(app, make_config(), alpn="h2" if alpn else "http/1.1", client=("192.0.2.9", 4444), server=("198.51.100.1", 8080))
     app.gate = conn.ctx.event_class()
     if s > 0:
         conn.feed(data[:s])
     if s < len(data):
         conn.feed(data[s:])
-    if late:
+    if late and not respond_first:
         conn.sched.spawn(app.gate.set(), "open gate")
         conn.sched.run()
     rounds = 0
